@@ -99,9 +99,10 @@ func validateUnconnectedProcessors(flow *FlowDirection) error {
 
 // detectCircularConnections detects circular connections in the flow graph.
 func detectCircularConnections(flowDir *FlowDirection) error {
-	if flowDir.GetFlowType().IsResponseType() && !flowDir.HasValidRoot() {
-		// A root-less response direction is entered from the connection of an
-		// early-response processor, so every node can be the start of a walk.
+	if flowDir.GetFlowType().IsResponseType() {
+		// A response direction is also entered from the connection of an
+		// early-response processor (with or without a root), so every node can
+		// be the start of a walk, not only the ones the root leads to.
 		for _, node := range flowDir.nodes {
 			visitedByCondition := make(map[string]map[string]bool)
 			if !dfsDetectCycles(node, visitedByCondition, node.processorKey, "") {
